@@ -20,6 +20,9 @@ def parseTy : Nat → List String → Option (Ty × List String)
         | some (b, r') => some (f a b, r')
         | none => none)
       | none => none
+    let num (pre : Char) : Option Nat := match tok.toList with
+      | c :: ds => if c == pre && !ds.isEmpty then (String.ofList ds).toNat? else none
+      | [] => none
     match tok with
     | "p1" => some (.pod 1, rest)
     | "p2" => some (.pod 2, rest)
@@ -42,7 +45,13 @@ def parseTy : Nat → List String → Option (Ty × List String)
     | "M" => bin .map
     | "P" => bin .pair
     | "X" => bin .pair
-    | _ => none
+    | "W" => un .mset
+    | "N" => bin .mmap
+    | _ =>
+      match num 'p', num 'A' with
+      | some n, _ => some (.pod n, rest)
+      | none, some n => un (fun t => .arr t n)
+      | none, none => none
 
 def tyOf (w : String) : Option Ty :=
   let toks := w.splitOn "."
@@ -115,6 +124,25 @@ def parseVal (norm : Bool) : (ty : Ty) → List String → Option (Val ty × Lis
     | "0" :: r => some (none, r)
     | "1" :: r => (match parseVal norm t r with | some (x, r') => some (some x, r') | none => none)
     | _ => none
+  | .mset t, toks => match toks with
+    | c :: r => (match count c with
+      | some n => (match parseN (parseVal norm t) n r with
+        | some (l, r') => some (if norm then msetOfList (lt t) l else l, r')
+        | none => none)
+      | none => none)
+    | [] => none
+  | .mmap k v, toks => match toks with
+    | c :: r => (match count c with
+      | some n => (match parseN (fun ts => match parseVal norm k ts with
+                              | some (x, r1) => (match parseVal norm v r1 with
+                                | some (y, r2) => some ((x, y), r2)
+                                | none => none)
+                              | none => none) n r with
+        | some (l, r') => some (if norm then mmapOfList (lt k) l else l, r')
+        | none => none)
+      | none => none)
+    | [] => none
+  | .arr t n, toks => parseN (parseVal norm t) n toks
 
 def rawHex (bs : Bytes) : String :=
   String.ofList (bs.flatMap fun b => [hexChar (b.toNat / 16), hexChar (b.toNat % 16)])
@@ -130,6 +158,9 @@ def dumpVal : (ty : Ty) → Val ty → List String
   | .ptr t, v => match v with
     | none => ["0"]
     | some x => "1" :: dumpVal t x
+  | .mset t, v => s!"n{v.length}" :: v.flatMap (dumpVal t)
+  | .mmap k w, v => s!"n{v.length}" :: v.flatMap (fun x => dumpVal k x.1 ++ dumpVal w x.2)
+  | .arr t _, v => v.flatMap (dumpVal t)
 
 def errStr : Err → String
   | .eof => "err eof"
